@@ -32,4 +32,10 @@ mod verif_demo_c06_shared_negative_offset {
 <row r="1"><c r="C1"><f t="shared" si="0"/><v>0</v></c></row>"#);
         let _ = formulas(&mut x);
     }
+    // a number literal with >= 10 digits in a shared master formula reaches get_row_column's u32 accumulators (finding of unit a1)
+    #[test]
+    #[should_panic(expected = "attempt to multiply with overflow")]
+    fn verif_demo_shared_long_number_literal_overflows() {
+        let _ = replace_cell_names("A1*12345678901", (1, 0));
+    }
 }
